@@ -146,9 +146,16 @@ class Worker:
             cpu = _cpu_seconds(self.p.pid)
             if cpu is None:
                 continue
+            now = time.time()
             if cpu0 is None:
                 cpu0 = cpu
+                last_cpu, last_progress = cpu, now
             elif cpu - cpu0 > budget:
+                return ("timeout", None)
+            elif cpu > last_cpu + 0.01:
+                last_cpu, last_progress = cpu, now
+            elif now - last_progress > 60:
+                # alive, silent and not consuming CPU for a minute: a blocked worker (never a verdict)
                 return ("timeout", None)
 
     def _send(self, job):
